@@ -352,7 +352,9 @@ def familyPaths : List (List Token × Handler) :=
    ([.SET, .PASSWORD, .FOR], .parseSetPasswordUserStatement),
    ([.GRANT], .parseGrantStatement),
    ([.REVOKE], .parseRevokeStatement),
-   ([.CREATE, .RETENTION, .POLICY], .parseCreateRetentionPolicyStatement)]
+   ([.CREATE, .RETENTION, .POLICY], .parseCreateRetentionPolicyStatement),
+   ([.SHOW, .STATS], .parseShowStatsStatement),
+   ([.SHOW, .DIAGNOSTICS], .parseShowDiagnosticsStatement)]
 
 /-- Obligation on the regenerated tables: every path above consists of keywords of the scanner's
 table and selects its handler from the root of the dispatch tree, within the rounds of the loop. -/
@@ -1181,6 +1183,101 @@ theorem createRetentionPolicy_statement_render_parse (text : Str) (params : List
     hstop hL2 hs
   exact ⟨s', h1⟩
 
+/-! ### SHOW STATS / SHOW DIAGNOSTICS [FOR '<module>'] -/
+
+/-- The optional `FOR '<module>'`. -/
+def forPieces : Option (Render.Gap × Str × Render.Gap) → Str → List (Render.Gap × Piece)
+  | none, _ => []
+  | some (g1, w, g2), m => [(g1, .kw .FOR w), (g2, .str m)]
+
+theorem parseForModule_render (s : PState) (c : Option (Render.Gap × Str × Render.Gap)) (m k : Str) (hc : c = none → m = [])
+    (hL : Legal (forPieces c m) k) (hs : s.Before (render (forPieces c m) ++ k)) :
+    ∃ sK, sK.Before k ∧ ReturnsAt parseForModule s m sK c.isNone [.FOR] := by
+  cases c with
+  | none =>
+    have hm := hc rfl
+    subst hm
+    refine ⟨s, hs, ?_⟩
+    unfold ReturnsAt
+    rw [if_pos (by rfl)]
+    intro lx s' hp hne
+    unfold parseForModule
+    rw [P.run_bind _ _ s false s' (optTok_absent .FOR hp (by simpa using hne))]
+    rfl
+  | some c =>
+    obtain ⟨g1, w, g2⟩ := c
+    obtain ⟨s1, h1, b1⟩ := optTok_of (t := .FOR) (L := []) (step s g1 _ _ k hL hs.around)
+    obtain ⟨s2, h2, b2⟩ := parseString_of (v := m) (step s1 g2 _ _ k hL.tail b1.around)
+    refine ⟨s2, b2, ?_⟩
+    unfold ReturnsAt
+    rw [if_neg (by simp)]
+    unfold parseForModule
+    rw [P.run_bind _ _ s true s1 h1]
+    exact h2
+
+def forModuleFamily : List (List Token × Handler × (Str → Statement)) :=
+  [([.SHOW, .STATS], .parseShowStatsStatement, .showStats),
+   ([.SHOW, .DIAGNOSTICS], .parseShowDiagnosticsStatement, .showDiagnostics)]
+
+theorem gen_forModuleFamily : ∀ p ∈ forModuleFamily, (p.1, p.2.1) ∈ familyPaths := by decide
+
+/-- **SHOW STATS / SHOW DIAGNOSTICS [FOR 'module'] in free spelling** (no clause denotes the empty
+module name). -/
+theorem forModule_render_parse (fuel : Nat) (toks : List Token) (h : Handler) (C : Str → Statement)
+    (hh : (toks, h, C) ∈ forModuleFamily) (s : PState) (c : Option (Render.Gap × Str × Render.Gap)) (m k : Str)
+    (hc : c = none → m = []) (hL : Legal (forPieces c m) k) (hs : s.Before (render (forPieces c m) ++ k)) :
+    ∃ sK, sK.Before k ∧ ReturnsAt (runHandler fuel h) s (C m) sK c.isNone [.FOR] := by
+  obtain ⟨sK, hb, hr⟩ := parseForModule_render s c m k hc hL hs
+  refine ⟨sK, hb, ?_⟩
+  simp only [forModuleFamily, List.mem_cons, Prod.mk.injEq, List.not_mem_nil, or_false] at hh
+  unfold ReturnsAt at hr ⊢
+  rcases hh with ⟨_, rfl, rfl⟩ | ⟨_, rfl, rfl⟩ <;>
+  · simp only [runHandler]
+    split
+    · next hp =>
+      rw [if_pos hp] at hr
+      intro lx s' h1 h2
+      rw [P.run_bind _ _ s m s' (hr lx s' h1 h2)]; rfl
+    · next hp =>
+      rw [if_neg hp] at hr
+      rw [P.run_bind _ _ s m sK hr]; rfl
+
+/-- **SHOW STATS / SHOW DIAGNOSTICS, from the first character.** -/
+theorem forModule_statement_render_parse (text : Str) (params : List (Str × BoundValue)) (tbl : List (Char × Char))
+    (toks : List Token) (h : Handler) (C : Str → Statement) (hh : (toks, h, C) ∈ forModuleFamily)
+    (ks : List (Render.Gap × Str)) (hks : ks.length = toks.length) (c : Option (Render.Gap × Str × Render.Gap)) (m k' : Str)
+    (hc : c = none → m = [])
+    (hfold : foldCR text = render (kwPieces toks ks ++ forPieces c m) ++ k')
+    (hL : Legal (kwPieces toks ks ++ forPieces c m) (k' ++ [eofRune]))
+    (hnext : c = none → NextNot (k' ++ [eofRune]) .FOR) :
+    parseStatementText text params tbl = .ok (C m) := by
+  refine statement_of_family text params tbl toks h (gen_forModuleFamily _ hh) ks hks _ k' _ hfold hL ?_
+  intro s hs hL2
+  obtain ⟨sK, hb, hr⟩ := forModule_render_parse _ toks h C hh s c m _ hc hL2 hs
+  refine run_of_returnsAt hr hb ?_
+  intro hp t ht
+  simp only [List.mem_cons, List.not_mem_nil, or_false] at ht
+  subst ht
+  exact hnext (by cases c <;> simp_all)
+
+/-! ### why `EndOK` is needed: words glued to a quoted identifier -/
+
+/-- The side condition `Piece.EndOK` (a keyword or bare name must not be directly followed by `"`) is not
+an artefact: `KILL QUERY 7 ON"h"` is accepted as `KILL QUERY 7` (the scanner reads `ON"h"` as the identifier
+`h`, so the `ON` clause is not seen and `h` is left unread), `DROP DATABASE x"y"` drops `y`, and
+`DROP DATABASE"a"` is rejected. With a gap (or nothing glued) the theorems above apply. -/
+theorem glued_quote_counterexample :
+    (match parseStatementText "KILL QUERY 7 ON\"h\"".toList [] [] with
+     | .ok (.killQuery 7 host) => host == []
+     | _ => false) = true ∧
+    (match parseStatementText "DROP DATABASE x\"y\"".toList [] [] with
+     | .ok (.dropDatabase n) => n == "y".toList
+     | _ => false) = true ∧
+    (match parseStatementText "DROP DATABASE\"a\"".toList [] [] with
+     | .ok _ => false
+     | .error _ => true) = true := by
+  refine ⟨?_, ?_, ?_⟩ <;> decide +kernel
+
 /-! ### non-vacuity of the first families -/
 
 /-- `dRoP  /* c */ dataBASE⇥"a b"`: mixed case, two blanks + a block comment + a blank, a tab, a quoted name. -/
@@ -1293,6 +1390,21 @@ example : parseStatementText
     simp only [List.mem_cons, List.not_mem_nil, or_false] at ht
     rcases ht with rfl | rfl | rfl | rfl <;> decide
   · exact legal_of_spaced _ _ _ _ (by decide +kernel) (by decide +kernel) (by decide +kernel)
+      (fun q _ => q.2.endOK_eof)
+
+/-- `SHOW stats FOR 'runtime'` and `show diagnostics` at the end of the input. -/
+example : parseStatementText "SHOW stats FOR 'runtime'".toList [] [] = .ok (.showStats "runtime".toList) ∧
+    parseStatementText "show diagnostics".toList [] [] = .ok (.showDiagnostics []) := by
+  constructor
+  · refine forModule_statement_render_parse _ [] [] [.SHOW, .STATS] .parseShowStatsStatement .showStats
+      (by simp [forModuleFamily]) [([], "SHOW".toList), ([.ws ' '], "stats".toList)] rfl
+      (some ([.ws ' '], "FOR".toList, [.ws ' '])) "runtime".toList [] (by simp) (by decide +kernel) ?_ (by simp)
+    exact legal_of_spaced _ _ _ _ (by decide +kernel) (by decide +kernel) (by decide +kernel)
+      (fun q _ => q.2.endOK_eof)
+  · refine forModule_statement_render_parse _ [] [] [.SHOW, .DIAGNOSTICS] .parseShowDiagnosticsStatement .showDiagnostics
+      (by simp [forModuleFamily]) [([], "show".toList), ([.ws ' '], "diagnostics".toList)] rfl
+      none [] [] (fun _ => rfl) (by decide +kernel) ?_ (fun _ => nextNot_eof _ (by decide))
+    exact legal_of_spaced _ _ _ _ (by decide +kernel) (by decide +kernel) (by decide +kernel)
       (fun q _ => q.2.endOK_eof)
 
 end InfluxQL.C01
